@@ -32,7 +32,7 @@ def describe(tier):
 def extras(res, tier):
     from .. import bigops
 
-    return bigops.family(res, tier, "C06")
+    return bigops.parts("C06")
 
 
 def main(tier, all_violations=False, t0=None):
